@@ -558,7 +558,16 @@ def _thread_once_exits(root):
                 if any(t is None for t in truths):
                     continue
                 if any(t is True for t in truths) and not _always_returns(nxt.body):
-                    continue
+                    # small branches are carried into the exits instead: `x = None; <then branch>; break` / `<else branch>; break`
+                    small = len(nxt.body) <= 3 and len(nxt.orelse) <= 3 and \
+                        not any(isinstance(y, (ast.Break, ast.Continue)) for b in nxt.body + nxt.orelse for y in ast.walk(b))
+                    if not small:
+                        continue
+                    for (stmts, idx, v), t in sorted(zip(found, truths), key=lambda x: -x[0][1]):
+                        branch = nxt.body if t is True else nxt.orelse
+                        stmts[idx:idx] = _clone_ast(branch)
+                    lst[i + 1:i + 2] = []
+                    break
                 # replace from the back so that indices stay valid
                 for (stmts, idx, v), t in sorted(zip(found, truths), key=lambda x: -x[0][1]):
                     if t is True:
@@ -1018,6 +1027,7 @@ class Model:
                         return ast.copy_location(ast.Attribute(value=node.args[0], attr=node.args[1].value, ctx=ast.Load()), node)
                     return node
             _Get().visit(root)
+            _thread_once_exits(root)        # again: a hand-over test may have been a conditional expression until now
             ast.fix_missing_locations(root)
             par = getattr(root, 'parent', None)
             set_parents(root)
